@@ -7,7 +7,7 @@ compared with a reference interpretation of the decision list over the query pla
 import itertools
 
 from vt import reqworld
-from vt.core import Part
+from vt.core import Part, HarnessError
 
 META = {
     'level': 'model_checking',
@@ -17,7 +17,11 @@ META = {
             'truncate, connection failure} x decision {RETRY, RETRY_NEXT_HOST, RETHROW, IGNORE} x policy-chosen consistency '
             '{None, ANY, QUORUM} (thorough: + ONE), ended by a success, are replayed on a real 3-host Session (fixed plan): the (host, consistency) '
             'of every frame received, the hook and retry_num of every policy call and the final outcome must equal the reference; '
-            'non-idempotent statements with a speculative-execution policy must never produce a second frame.  Speculative '
+            'statement kinds x speculative policy: SimpleStatement, PreparedStatement handed to the session, BoundStatement '
+            '(mark inherited from the PreparedStatement, overridden to False, overridden to True), BatchStatement (own mark x member '
+            'kind simple/bound x member mark), each with the mark set and cleared, with 0/1/2 speculative executions allowed: after every '
+            'speculative timer before the client timeout has fired, a statement whose own is_idempotent is False has produced exactly '
+            'one frame (one marked idempotent 1 + allowed), and after a following RETRY_NEXT_HOST decision exactly two.  Speculative '
             'layer: BFS over every order of {speculative timer fires, outstanding attempt i answered with rows or a retryable error '
             'and each decision} with 1-2 speculative executions (several attempts outstanding on different hosts), a reference '
             'model advanced with every event: RETRY goes to the host whose attempt failed, RETRY_NEXT_HOST to the next unused host '
@@ -153,33 +157,162 @@ def run_chunk(seqs):
     return part
 
 
+# ---------------------------------------------------------------------- statement kinds x speculative policy
+PREP_QUERY = 'SELECT v FROM ks1.t WHERE k = ?'
+PREP_ID = b'qid-C16A'
+
+
+def stmt_cases():
+    """Every way an application can hand a statement to the session, with every placement of the idempotence mark.
+    The mark that counts is the one on the statement object the application executes."""
+    out = []
+    for flag in (True, False):
+        out.append(('simple', flag))
+        out.append(('prepared', flag))                       # the PreparedStatement itself, bound by the session
+        for override in ('inherit', False, True):
+            out.append(('bound', flag, override))            # flag of the PreparedStatement, mark set on the BoundStatement
+        for mkind in ('simple', 'bound'):
+            for mflag in (True, False):
+                out.append(('batch', flag, mkind, mflag))    # mark of the BatchStatement, kind and mark of its member
+    return out
+
+
+def marked_idempotent(case):
+    """-> True / False (the executed statement's own mark), None = not judged"""
+    kind = case[0]
+    if kind in ('simple', 'prepared'):
+        return case[1]
+    if kind == 'bound':
+        return case[1] if case[2] == 'inherit' else case[2]
+    if kind == 'batch':
+        if case[1] and not case[3]:
+            return None          # a batch marked idempotent that contains a member not marked: the statement does not say
+        return case[1]
+    raise ValueError(case)
+
+
+def stmt_class(case):
+    if case[0] == 'bound':
+        return 'bound-inherit' if case[2] == 'inherit' else 'bound-own-mark'
+    return case[0]
+
+
+def _prepare(st):
+    """Session.prepare() against the auto server (PREPARE answered on every host), then hold again."""
+    from vt.world import wire
+    srv = st.server
+    srv.hold = lambda c, r: False
+    st.w.manual = False
+
+    def on_req(server, conn, stream, req):
+        if req['op'] == 'PREPARE':
+            return wire.OP_RESULT, wire.result_prepared(PREP_ID, [('k', wire.T_INT)], [('v', wire.T_INT)], req['version'],
+                                                        pk_indexes=(0,), ks='ks1', table='t')
+        return None
+    srv.on_request = on_req
+    try:
+        ps = st.session.prepare(PREP_QUERY)
+        st.w.settle()
+    finally:
+        srv.on_request = None
+        srv.hold = st._hold
+        st.w.manual = True
+    return ps
+
+
+def build_statement(st, case):
+    """-> (statement, parameters) for Session.execute_async"""
+    from cassandra.query import SimpleStatement, BatchStatement
+    kind = case[0]
+    if kind == 'simple':
+        return SimpleStatement('SELECT y', is_idempotent=case[1]), None
+    if kind == 'prepared':
+        ps = _prepare(st)
+        ps.is_idempotent = case[1]
+        return ps, [1]
+    if kind == 'bound':
+        ps = _prepare(st)
+        ps.is_idempotent = case[1]
+        bound = ps.bind([1])
+        if case[2] != 'inherit':
+            bound.is_idempotent = case[2]
+        return bound, None
+    if kind == 'batch':
+        batch = BatchStatement()
+        if case[2] == 'simple':
+            batch.add(SimpleStatement('INSERT y', is_idempotent=case[3]))
+        else:
+            ps = _prepare(st)
+            ps.is_idempotent = case[3]
+            batch.add(ps.bind([1]))
+        batch.is_idempotent = case[1]
+        return batch, None
+    raise ValueError(case)
+
+
 def run_spec_chunk(cases):
-    """non-idempotent + speculative policy: firing every timer before the timeout sends nothing more"""
+    """statement kind x placement of the idempotence mark x speculative policy: every speculative timer before the
+    client timeout is fired; a statement that is not marked idempotent must have produced exactly one frame"""
     part = Part()
-    for idem, spec in cases:
+    for case, spec in cases:
+        case = tuple(case)
         part.count('evaluations')
-        st, f, err = play((), idempotent=idem, spec=spec)
+        st = reqworld.ReqWorld(dict(hosts=3, spec=spec, timeout=10.0))
         try:
-            # play() answered the first attempt; start again without answering
-            f2 = st.execute('y', idempotent=idem)
-            fired = 0
-            while True:
-                live = [t for t in st.w.live_timers() if t.end < st.w.clock.now + 9.0]
-                if not live:
-                    break
-                st.w.fire_timer(live[0])
-                fired += 1
-                if fired > 10:
-                    break
-            n = len([1 for a, r in st.sent_app_requests() if r.get('query') == 'SELECT y'])
-            part.outcome(('idempotent' if idem else 'non-idempotent', spec, n))
-            part.mark_nontrivial(repr((idem, spec)))
-            if not idem and n != 1:
-                part.violation('C16/speculative-non-idempotent', 'non-idempotent statement sent %d frames with %d speculative executions allowed' % (n, spec),
-                               {'idempotent': idem, 'spec': spec})
-            if idem and n != 1 + spec:
-                part.violation('C16/speculative-count', 'idempotent statement sent %d frames with %d speculative executions allowed' % (n, spec),
-                               {'idempotent': idem, 'spec': spec})
+            stmt, params = build_statement(st, case)
+            mark = len(st.server.received)
+            f = st.session.execute_async(stmt, params)
+            st.futures.append(f)
+            t_end = st.w.clock.now + 9.0
+
+            def fire_due():
+                fired = 0
+                while fired <= 10:
+                    live = [t for t in st.w.live_timers() if t.end < t_end]
+                    if not live:
+                        break
+                    st.w.fire_timer(live[0])
+                    fired += 1
+            fire_due()
+
+            def sent():
+                return [(st.w.conns[vid].endpoint.address, req['op']) for vid, stream, req in st.server.received[mark:]
+                        if req['op'] in ('QUERY', 'EXECUTE', 'BATCH')]
+            frames = sent()
+            n = len(frames)
+            want_op = {'simple': 'QUERY', 'prepared': 'EXECUTE', 'bound': 'EXECUTE', 'batch': 'BATCH'}[case[0]]
+            if not frames or any(op != want_op for _, op in frames):
+                raise HarnessError('C16 statement kinds: %r produced frames %r' % (case, frames))
+            idem = marked_idempotent(case)
+            part.outcome((stmt_class(case), {True: 'marked', False: 'not-marked', None: 'unjudged'}[idem], spec, n))
+            part.mark_nontrivial(repr((case, spec)))
+            part.sample({'stmt': case, 'spec': spec, 'frames': frames}, limit=2)
+            data = {'stmt': list(case), 'spec': spec}
+            if idem is False and n != 1:
+                part.violation('C16/speculative-non-idempotent/%s' % stmt_class(case),
+                               'statement %r is not marked idempotent but was sent %d times (%r) with %d speculative executions allowed'
+                               % (case, n, frames, spec), data)
+            if idem is True and n != 1 + spec:
+                part.violation('C16/speculative-count/%s' % stmt_class(case),
+                               'statement %r marked idempotent was sent %d times (%r) with %d speculative executions allowed'
+                               % (case, n, frames, spec), data)
+            if idem is False and n == 1:
+                # the one attempt fails and the policy moves it to the next host: one more frame, and the speculative
+                # timers that become due afterwards still send nothing
+                st.retry.next = ('RETRY_NEXT_HOST', None)
+                st.respond(0, 'overloaded')
+                guard = 0
+                while st.w.tasks and guard < 50:
+                    st.w.run_task(0)
+                    st.w.deliver_outbox()
+                    guard += 1
+                fire_due()
+                frames2 = sent()
+                part.outcome((stmt_class(case), 'not-marked', spec, 'after RETRY_NEXT_HOST', len(frames2)))
+                if [a for a, _ in frames2] != ['10.0.0.1', '10.0.0.2']:
+                    part.violation('C16/speculative-non-idempotent/%s/after-retry' % stmt_class(case),
+                                   'statement %r is not marked idempotent; after one RETRY_NEXT_HOST decision the frames are %r '
+                                   '(%d speculative executions allowed)' % (case, frames2, spec), data)
         finally:
             st.close()
     return part
@@ -315,12 +448,16 @@ def run(ctx):
     n = ctx.nproc * 4
     for part in ctx.pmap(run_chunk, [seqs[i::n] for i in range(n) if seqs[i::n]]):
         ctx.merge(part)
-    ctx.merge(run_spec_chunk([(i, s) for i in (True, False) for s in (0, 1, 2)]))
+    sc = ctx.rotate([(c, s) for c in stmt_cases() for s in (0, 1, 2)])
+    for part in ctx.pmap(run_spec_chunk, [sc[i::n] for i in range(n) if sc[i::n]]):
+        ctx.merge(part)
     ctx.count('states', ctx.counters.get('evaluations', 0))
     ctx.count('transitions', sum(len(s) + 1 for s in seqs))
     ctx.cov['rule'] = ('error sequences of length <= 3, first error from all 8 kinds, later ones from %s (quick: 2 kinds at length 3); decisions and policy-chosen '
-                       'consistency enumerated completely; non-trivial = sequence with >= 2 errors' % ('4 kinds' if ctx.quick else 'all 8 kinds'))
+                       'consistency enumerated completely; non-trivial = sequence with >= 2 errors; statement kinds: %d (kind, mark placement) cases x {0,1,2} '
+                       'speculative executions, each non-trivial' % ('4 kinds' if ctx.quick else 'all 8 kinds', len(stmt_cases())))
     ctx.cov['exhaustive'] = True
+    ctx.assume('a BatchStatement marked idempotent that contains a member not marked idempotent is executed but its number of frames is not judged')
     ctx.assume('RETRY on the same host after a connection failure depends on when the pool replaces the connection; those sequences are counted as skipped, not judged')
 
 
@@ -329,8 +466,10 @@ def replay(ctx, data):
         part = explore.replay(HS, data['params'], [tuple(e) for e in data['history']])
     elif 'seq' in data:
         part = run_chunk([tuple(tuple(s) for s in data['seq'])])
+    elif 'stmt' in data:
+        part = run_spec_chunk([(tuple(data['stmt']), data['spec'])])
     else:
-        part = run_spec_chunk([(data['idempotent'], data['spec'])])
+        part = run_spec_chunk([(('simple', data['idempotent']), data['spec'])])
     for fp, what, _ in part.violations:
         print(fp, '::', what)
     return bool(part.violations)
